@@ -89,9 +89,6 @@ impl Universe {
             self.remote_clients[i - self.local_clients.len()].1.as_ref().clone()
         }
     }
-    pub fn all_clients(&self) -> Vec<String> {
-        self.local_clients.iter().map(|c| c.as_ref().clone()).chain(self.remote_clients.iter().map(|c| c.1.as_ref().clone())).collect()
-    }
 }
 
 pub fn weight_of(i: u8) -> f32 {
